@@ -28,6 +28,8 @@ func pinned(t *testing.T, id, what string, c caseT) {
 	hx.Journal(c)
 	var out outcomeT
 	t0 := time.Now()
+	noExclude = true
+	defer func() { noExclude = false }()
 	err, hung, panicked := hx.Guard(240*time.Second, func() error { return runCase(c, &out) })
 	if os.Getenv("C13_DEBUG") != "" {
 		t.Logf("%s crash=%+v at=%s: %s", id, c.Crash, out.crashAt, time.Since(t0))
@@ -137,5 +139,17 @@ func TestRegressCrashChunkOne(t *testing.T) {
 			id = KnownResumeNoChunk
 		}
 		pinned(t, id, "build-reverse-lookup (chunk size 1) killed between chunks and resumed loses leaves", c)
+	}
+}
+
+// The download of an index chunk breaks in the middle while delete-unused loads the index: the keys
+// of the rest of the chunk are not loaded, the command goes on.
+func TestRegressChunkReadBreaks(t *testing.T) {
+	for nth := 1; nth <= 3; nth++ {
+		pinned(t, KnownChunkReadBreaks, "an index chunk download that breaks in the middle is taken for a complete chunk (bufio.Scanner error not checked): delete-unused deletes the blobs listed in the rest of the chunk", caseT{
+			Shape: oneRepo, Chunk: 8, Parallel: 1,
+			Pre:    []purgex.Op{up(0, file("a", 0, 0, 1), file("b", 300, 2, 2, 1))},
+			Faults: []faultT{{Phase: "delete", Store: "meta", Op: OpGetShort, Key: "reverse-index", Nth: nth, Times: 1}},
+		})
 	}
 }
